@@ -16,6 +16,11 @@ CHECKS = {
    "Arbitrary byte strings, structured mutations of valid frames (every truncation point), and the exhaustive cross product of boundary values for the three 64-bit length fields (incl. wrapping sums and unallocatable sizes) are fed to all 5 slice parsers and all 4 stream readers; never panic/abort, Ok iff the reference parser says a whole consistent frame is present, payload identical to the input bytes, exactly one frame consumed.",
    "Stream-reader cases keep each declared payload <= 16 MiB or >= 2^62 (the property's own memory-independence restriction); aborts are observed as child signal exits.",
    "DESIGN.md §4 C02"),
+ "C07": ("exploration",
+   "property-based differential testing: owned vs borrowed vs context dispatch, with vs without middleware, shuffled registration programs; independent RFC 6901 tokenizer and prefix predicate as oracle for mounts",
+   "Every built-in handler kind x body-format code x body shape is dispatched through handle / handle_with_ctx / handle_view behind 0..3 forwarding middlewares registered at shuffled positions and must give the same normalised response and handler observations as the middleware-free router, with each middleware running exactly once; recording struct and registry mounts at generated roots must be reached iff the path equals the root or extends it at '/', an exactly registered path wins, and the struct sees exactly the independent tokenizer's reference tokens for depths 0..40 (incl. 15/16/17).",
+   "Malformed escapes and trailing-slash roots are outside the quantifier; registry/struct mount overlap precedence is not asserted.",
+   "DESIGN.md §4 C07"),
  "C11": ("exploration",
    "model-based testing: bounded-exhaustive operation sequences plus proptest random histories against a u128 reference model checked after every step",
    "All operation sequences up to the tier's length over a 15-operation small-scope alphabet (exhaustive) and random histories up to 200 ops over 64-bit values with hostile acks run against TransferControl; offsets(), cancel state and the credit predicate (probed in the promised direction) must match the model after every step; a documented-loop producer is simulated under hostile acks.",
